@@ -17,7 +17,7 @@
    Faulty validators are silent.  Timeouts that the ticker does not hold are ignored by
    handleTimeout, so the schedule never forces a step the code would not take. *)
 From Coq Require Import List ZArith NArith Bool Lia.
-From TM Require Import C02.Model C03.Round C03.SyncModel C03.SyncNet C03.Unsettled C03.TermLV.
+From TM Require Import C02.Model C03.Round C03.SyncModel C03.SyncNet C03.Unsettled C03.UnfixedF83 C03.TermLV.
 From TM Require C03.Sync.
 Import ListNotations.
 Open Scope Z_scope.
@@ -37,11 +37,16 @@ Definition find_proposal (h r : Z) (o : list output) : option (Z * option N) :=
 (* a machine together with the outputs of its last step *)
 Definition mo := (machine * list output)%type.
 
-Definition step_all (ins : machine -> list input) (ms : list machine) : list mo :=
-  map (fun m => let '(s', os) := run (m_env m) (m_state m) (ins m) in
+(* [runf]: the state machine's run function - Model.run (the model of record), or run_u83 (the
+   re-lock of enterPrecommit before the repair of F83) for the regression witness *)
+Definition runfun := env -> cstate -> list input -> cstate * list (list output).
+
+Definition step_all (runf : runfun) (ins : machine -> list input) (ms : list machine) : list mo :=
+  map (fun m => let '(s', os) := runf (m_env m) (m_state m) (ins m) in
                 ({| m_idx := m_idx m; m_env := m_env m; m_state := s' |}, concat os)) ms.
 
 Section Sim.
+Variable runf : runfun.
 Variable vals : valset.
 Variable sig : nat -> N -> N.
 Variable peer : nat -> N.
@@ -74,10 +79,10 @@ Definition phase1_inputs (r : Z) (ent : list mo) : list input :=
 (* result: the machines with the outputs of phase 3 (with which they entered round r+1), and
    per machine everything it output during the round *)
 Definition sync_round (r : Z) (ent : list mo) : list mo * list (list output) :=
-  let l1 := step_all (fun _ => phase1_inputs r ent) (map fst ent) in
-  let l2 := step_all (fun _ => votes_of PREVOTE l1 ++ [tmo_in r SPrevoteWait]) (map fst l1) in
+  let l1 := step_all runf (fun _ => phase1_inputs r ent) (map fst ent) in
+  let l2 := step_all runf (fun _ => votes_of PREVOTE l1 ++ [tmo_in r SPrevoteWait]) (map fst l1) in
   let pcs := votes_of PRECOMMIT l1 ++ votes_of PRECOMMIT l2 in
-  let l3 := step_all (fun _ => pcs ++ [tmo_in r SPrecommitWait]) (map fst l2) in
+  let l3 := step_all runf (fun _ => pcs ++ [tmo_in r SPrecommitWait]) (map fst l2) in
   (l3, map (fun x => snd (fst (fst x)) ++ snd (snd (fst x)) ++ snd (snd x)) (combine (combine l1 l2) l3)).
 
 (* n rounds r, r+1, ...; the outputs of every round *)
@@ -103,7 +108,8 @@ Definition view (x : mo) :=
 Definition sim_sig (i : nat) (ty : N) : N := (N.of_nat i * 10 + ty)%N.
 Definition sim_peer (i : nat) : N := N.of_nat (100 + i).
 
-(* ================================================================== the livelock (finding F83)
+(* ================================================================== the livelock (finding F83, REPAIRED: on the
+   unrepaired re-lock, run_u83; the model of record decides - lv_fixed_decides below)
 
    A = the machine of TermLV.v (locked X = 5 since round 6, valid block Y = 7 of round 2), at
    round 7 as its proposer.  B and C: correct machines, reachable from the initial state, that
@@ -117,12 +123,16 @@ Definition lv_other (i j : Z) : list input :=
     lv_tmo 6 SPrecommitWait;
     w_vote PRECOMMIT 6 None i ].
 
-Definition lv_mo (i : nat) (ins : list input) : mo :=
+Definition lv_mo_gen (runf : runfun) (i : nat) (ins : list input) : mo :=
   let E := lv_env (Z.of_nat i) in
-  let '(s, os) := run E (init_state E 1 None) ins in
+  let '(s, os) := runf E (init_state E 1 None) ins in
   ({| m_idx := i; m_env := E; m_state := s |}, concat os).
 
-Definition lv_net : list mo := [lv_mo 0 (lv_prefix); lv_mo 1 (lv_other 1 2); lv_mo 2 (lv_other 2 1)].
+Definition lv_net_gen (runf : runfun) : list mo :=
+  [lv_mo_gen runf 0 (lv_prefix); lv_mo_gen runf 1 (lv_other 1 2); lv_mo_gen runf 2 (lv_other 2 1)].
+(* the network on the UNREPAIRED state machine (regression witness), and on the model of record *)
+Definition lv_net : list mo := lv_net_gen run_u83.
+Definition lv_net_fixed : list mo := lv_net_gen run.
 
 Example lv_net_entry :
   map view lv_net =
@@ -135,8 +145,8 @@ Proof. vm_compute. reflexivity. Qed.
    7, 11, 15, 19, B in 8, 12, 16, 20, C in 9, 13, 17, 21): NO machine decides; A stays locked on
    X with valid block Y, B and C stay unlocked; everybody is in round 23 *)
 Example lv_livelock_16_rounds :
-  any_decision (snd (sync_rounds w_vals sim_sig sim_peer 1 16 7 lv_net)) = false /\
-  map view (fst (sync_rounds w_vals sim_sig sim_peer 1 16 7 lv_net)) =
+  any_decision (snd (sync_rounds run_u83 w_vals sim_sig sim_peer 1 16 7 lv_net)) = false /\
+  map view (fst (sync_rounds run_u83 w_vals sim_sig sim_peer 1 16 7 lv_net)) =
   [ (0%nat, 1, 23, SPropose, (6, Some 5%N), (2, Some 7%N));
     (1%nat, 1, 23, SPropose, (-1, None), (-1, None));
     (2%nat, 1, 23, SPropose, (-1, None), (-1, None)) ].
@@ -151,7 +161,7 @@ Definition signed_votes (o : list output) : list (N * Z * option N) :=
                      end) o.
 
 Example lv_livelock_first_turn :
-  let '(_, os) := sync_rounds w_vals sim_sig sim_peer 1 4 7 lv_net in
+  let '(_, os) := sync_rounds run_u83 w_vals sim_sig sim_peer 1 4 7 lv_net in
   map (map signed_votes) os =
   [ (* round 7, proposer A: (Y, POL round 2): B and C do not hold the polka of round 2, the proposal
        stays incomplete; at the propose timeout they prevote the block they hold, Y *)
@@ -163,6 +173,20 @@ Example lv_livelock_first_turn :
     (* round 10, proposer D: silent *)
     [ [(PREVOTE, 10, Some 5%N); (PRECOMMIT, 10, None)]; [(PREVOTE, 10, None); (PRECOMMIT, 10, None)]; [(PREVOTE, 10, None); (PRECOMMIT, 10, None)] ] ].
 Proof. vm_compute. reflexivity. Qed.
+
+(* the model of record (F83 repaired): the same three input lists, the same closed loop.  A enters
+   round 7 locked on X with valid block X of round 6 and proposes (X, POL round 6); B and C do
+   not hold that polka, at the propose timeout they prevote the block they hold, X: polka,
+   everybody locks and precommits X, EVERY machine decides X in round 7. *)
+Example lv_fixed_decides :
+  map view lv_net_fixed =
+  [ (0%nat, 1, 7, SPropose, (6, Some 5%N), (6, Some 5%N));
+    (1%nat, 1, 7, SPropose, (-1, None), (-1, None));
+    (2%nat, 1, 7, SPropose, (-1, None), (-1, None)) ] /\
+  map all_decide_in (snd (sync_rounds run w_vals sim_sig sim_peer 1 1 7 lv_net_fixed)) = [true] /\
+  forallb (fun o => existsb (fun x => match x with ODecide 1 7 5%N => true | _ => false end) o)
+          (nth 0 (snd (sync_rounds run w_vals sim_sig sim_peer 1 1 7 lv_net_fixed)) []) = true.
+Proof. vm_compute. repeat split. Qed.
 
 (* ================================================================== rounds in sequence that END in a decision,
    and: the FIRST correct proposer's round may be wasted.
@@ -213,8 +237,8 @@ Example fw_net_entry :
 Proof. vm_compute. reflexivity. Qed.
 
 Example fw_first_correct_proposer_wastes_third_decides :
-  let os := snd (sync_rounds w_vals sim_sig sim_peer 1 3 1 fw_net) in
-  let l := fst (sync_rounds w_vals sim_sig sim_peer 1 3 1 fw_net) in
+  let os := snd (sync_rounds run w_vals sim_sig sim_peer 1 3 1 fw_net) in
+  let l := fst (sync_rounds run w_vals sim_sig sim_peer 1 3 1 fw_net) in
   map all_decide_in os = [false; false; true] /\
   map (fun rd => existsb (fun o => existsb decides o) rd) os = [false; false; true] /\
   map (map signed_votes) (firstn 2 os) =
